@@ -473,6 +473,16 @@ type Kernel struct {
 	// connection re-arms its accept deadline for ever; when nothing else has
 	// happened between two expiries the world is quiescent modulo that cycle
 	significant uint64
+	// livelock detection: the step at which something observable last happened
+	// (bytes moved, a log record, a connection event, the clock) and, since then,
+	// how often each task was released
+	lastProgress uint64
+	spin         map[string]int
+	// Livelock is set when the run hit the step cap after LivelockWindow steps
+	// without any progress; SpinTask / SpinSite name the task released most often in them
+	Livelock bool
+	SpinTask string
+	SpinSite string
 	timeoutTask *Task
 	idleCycle   bool
 	nroots      int
@@ -561,6 +571,14 @@ func (k *Kernel) DrawBias(n, pct int) int {
 
 // Count increments a named counter.
 func (k *Kernel) Count(name string) { k.Counters[name]++ }
+
+// LivelockWindow: that many steps up to the step cap without progress are a livelock.
+const LivelockWindow = 20000
+
+func (k *Kernel) progressed() {
+	k.lastProgress = k.step
+	clear(k.spin)
+}
 
 // Seq is the global event sequence number (kernel step counter).
 func (k *Kernel) Seq() uint64 { return k.step }
@@ -1009,6 +1027,16 @@ func (k *Kernel) Run() {
 		if int(k.step) >= k.cfg.MaxSteps {
 			k.Stop("step-cap")
 			k.Count("step_cap")
+			if k.step-k.lastProgress >= LivelockWindow {
+				k.Livelock = true
+				best := -1
+				for _, t := range k.tasks {
+					if n := k.spin[t.id]; n > best {
+						best, k.SpinTask, k.SpinSite = n, t.label, t.lastSite
+					}
+				}
+				k.Count("livelock")
+			}
 			return
 		}
 		run := k.runnable()
@@ -1032,6 +1060,7 @@ func (k *Kernel) Run() {
 				e := k.events[0]
 				d := time.Until(e.at)
 				k.Count("clock_jumps")
+				k.progressed()
 				raceOff()
 				time.Sleep(d)
 				raceOn()
@@ -1096,6 +1125,10 @@ func (k *Kernel) Run() {
 			}
 		}
 		k.trace("run %s %s", t.id, t.lastSite)
+		if k.spin == nil {
+			k.spin = map[string]int{}
+		}
+		k.spin[t.id]++
 		k.release(t, k.budget())
 	}
 }
